@@ -1,0 +1,11 @@
+//go:build !verif
+// +build !verif
+
+package gmtls
+
+// Verification hooks are compiled in only with the build tag `verif`; these stubs are inlined away.
+
+func verifEnc(hc *halfConn, data []byte, explicitIVLen int)                     {}
+func verifDec(hc *halfConn, seq [8]byte, typ byte, ok *bool, alertValue *alert) {}
+func verifCCS(hc *halfConn)                                                     {}
+func verifSetErr(hc *halfConn, err error)                                       {}
